@@ -1,5 +1,5 @@
 \* emission, single blocks (and the one-block assembly): one displacement/special-value variant per (orientation, layout) (thorough: all four), every k, whole graph
-CONSTANTS K = 7  H = 3  NB = 1  Layouts = {"p1", "p7", "p19", "singles", "mixed", "nogrid"} TieDi = TRUE  MaxLevel = 3
+CONSTANTS K = 7  H = 3  NB = 1  Layouts = {"p1", "p7", "p19", "singles", "mixed", "nogrid", "prism", "families"} TieDi = TRUE  MaxLevel = 3
 ACTION_CONSTRAINT Emit
 INVARIANT EmitState
 INIT Init
